@@ -141,7 +141,7 @@ async def _op(store: Any, typed: bool, kind: int, i: int, t: int, d: int) -> Non
                 s["y"] = y + c
 
 
-def run_concurrently(st: int, typed: bool, kinds: List[int], ts: List[int], ds: List[int], per_task_store: bool = False) -> bool:
+def run_concurrently(st: int, typed: bool, kinds: List[int], ts: List[int], ds: List[int], per_task_store: bool = False, churn: int = 0) -> bool:
     init_plain: Dict[str, Any] = {"a": None, "b": [], "c": {}, "n": 7} if typed else {"x": 0, "y": 0}
     with SqliteEnv() as env:
         if st == ST_MEM:
@@ -154,7 +154,21 @@ def run_concurrently(st: int, typed: bool, kinds: List[int], ts: List[int], ds: 
         # runtime over a SQLite workflow store (one create_state_store(run_id) per step invocation's adapter)
         stores = [env.store(TChild if typed else None) if (per_task_store and st == ST_SQL) else store for _ in kinds]
 
+        async def late_store(i: int) -> Any:
+            """churn > 0: the i-th task's store object is only created when the task starts (a step invocation's adapter is), and before
+            that `churn` OTHER runs of the same database have used their state stores (a busy server)"""
+            await asyncio.sleep(ts[i])
+            for k in range(churn):
+                other = env.store(None, run_id="other-%d-%d" % (i, k))
+                other._lock  # noqa: B018 - what every operation of that run does first
+            mine = env.store(TChild if typed else None)
+            await _op(mine, typed, kinds[i], i, 0, ds[i])
+
         async def main() -> Any:
+            if churn and st == ST_SQL:
+                tasks = [asyncio.ensure_future(late_store(i)) for i in range(len(kinds))]
+                await asyncio.gather(*tasks)
+                return await store.get_state()
             tasks = [asyncio.ensure_future(_op(stores[i], typed, kinds[i], i, ts[i], ds[i])) for i in range(len(kinds))]
             await asyncio.gather(*tasks)
             return await store.get_state()
@@ -197,8 +211,8 @@ def ob_two_tasks(st: int, typed: int, k0: int, k1: int, t0: int, t1: int, d0: in
             what="SQLite store, two concurrent tasks that each reach the run's state through their OWN SqliteStateStore object (the server "
                  "runtime creates one per step invocation: SqliteWorkflowStore.create_state_store(run_id)): the final state equals one of "
                  "the 2 serial results",
-            bounds={"store": "SqliteStateStore x 2 objects, one database, one run", "op kinds": "3 / 4", "instants": "0..TMAX (2 / 3)"})
-def ob_two_store_objects(k0: int, k1: int, t0: int, t1: int, d0: int, d1: int) -> bool:
+            bounds={"store": "SqliteStateStore x 2 objects, one database, one run; optionally 300 other runs active in between", "op kinds": "3 / 4", "instants": "0..TMAX (2 / 3)"})
+def ob_two_store_objects(k0: int, k1: int, t0: int, t1: int, d0: int, d1: int, busy: bool = False) -> bool:
     """
     pre: 0 <= k0 < NOPS and 0 <= k1 < NOPS
     pre: 0 <= t0 <= TMAX and 0 <= t1 <= TMAX and 0 <= d0 <= TMAX and 0 <= d1 <= TMAX
@@ -208,8 +222,10 @@ def ob_two_store_objects(k0: int, k1: int, t0: int, t1: int, d0: int, d1: int) -
     kinds = [cint(k0, 0, 3), cint(k1, 0, 3)]
     ts = [cint(t0, 0, 3), cint(t1, 0, 3)]
     ds = [cint(d0, 0, 3), cint(d1, 0, 3)]
+    busy = True if busy else False
     with untraced():
-        return run_concurrently(ST_SQL, False, kinds, ts, ds, per_task_store=True)
+        # busy: a few hundred other runs of the database use their state between the two tasks' store objects being created
+        return run_concurrently(ST_SQL, False, kinds, ts, ds, per_task_store=True, churn=(300 if busy else 0))
 
 
 @obligation(quick=150, thorough=300, partitions_quick=[f"st == {s}" for s in (0, 1)],
